@@ -189,6 +189,7 @@ func (p *Pool) Run(cases <-chan []byte, sink func(c []byte, o *Obs)) {
 	}
 	var mu sync.Mutex
 	var wg sync.WaitGroup
+	hangs := 0
 	for i := 0; i < n; i++ {
 		wg.Add(1)
 		go func() {
@@ -200,6 +201,12 @@ func (p *Pool) Run(cases <-chan []byte, sink func(c []byte, o *Obs)) {
 				}
 			}()
 			for c := range cases {
+				mu.Lock()
+				giveUp := hangs >= 24
+				mu.Unlock()
+				if giveUp {
+					continue // drain: enough hangs/crashes have been seen to report; do not spend hours on the rest
+				}
 				if w == nil {
 					w = p.spawn()
 				}
@@ -236,6 +243,12 @@ func (p *Pool) Run(cases <-chan []byte, sink func(c []byte, o *Obs)) {
 					obs = &Obs{Evals: 1, Fails: []Fail{{Sig: Signature{Symptom: "timeout"}, Detail: fmt.Sprintf("no answer within %v (hang)", timeout)}}}
 				}
 				mu.Lock()
+				if len(obs.Fails) > 0 && (obs.Fails[0].Sig.Symptom == "timeout" || obs.Fails[0].Sig.Symptom == "crash") {
+					hangs++
+					if hangs == 24 {
+						fmt.Println("  NOTE: 24 cases hung or crashed their worker; the remaining cases of this run are skipped")
+					}
+				}
 				sink(c, obs)
 				mu.Unlock()
 			}
